@@ -275,7 +275,12 @@ def rule_d(ctx):
 
 WITNESS = ['c16::mailbox']  # doctest filters in /verif/witness (thorough tier)
 
+def rule_e(ctx):
+    from . import c02
+    c02.rule_a(ctx)
+
 RULES = [
+    ("C12.e", "a blocked send retries the push until a slot is free; closed channels fail the send", rule_e),
     ("C12.a", "ordering floors and slot hand-over discipline", rule_a),
     ("C12.b", "notify pairing", rule_b),
     ("C12.c", "capacity", rule_c),
